@@ -213,7 +213,7 @@ func rulesC19(cx *Ctx) []Obligation {
 			}
 		}
 	}
-	if ns < 3 {
+	if ns < 1 {
 		obs = append(obs, undecided("C19/O19.3/floor", "the SetString call sites are found", fmt.Sprintf("%d sites", ns)))
 	}
 	obs = append(obs, ruleCopyMap(cx)...)
